@@ -302,6 +302,9 @@ func run(c *core.Ctx, size bool) {
 			c.Sample(map[string]any{"type": p.name, "slots": univ.Names([]*univ.Slot{alpha[len(alpha)/3], alpha[2*len(alpha)/3]})})
 		}
 	}
+	if size {
+		nilComposites(c)
+	}
 	c.Bounds["plans"] = planOut
 	c.Assume("marshal/unmarshal run with AllowPartial (required-field checks belong to C10)")
 	c.Assume("closed-enum fields are never given undeclared numbers (not valid content: such values move to unknown fields by design)")
